@@ -24,7 +24,31 @@ def coq_lists(out):
 # ---------------------------------------------------------------- JSON text -> Gallina `json`
 
 class _F(float):
-    pass
+    """a float literal of a JSON text; keeps its spelling so that the text can be reproduced"""
+    def __new__(cls, lit):
+        o = float.__new__(cls, lit)
+        o.lit = lit
+        return o
+
+
+def dump_json(j):
+    """the text of a parsed tree exactly as serde_json writes it (compact); with parse_json this is the identity on
+    the texts the implementation writes, which is checked: the tree comparison is then a byte-for-byte comparison"""
+    if j is None:
+        return "null"
+    if j is True:
+        return "true"
+    if j is False:
+        return "false"
+    if isinstance(j, _F):
+        return j.lit
+    if isinstance(j, int):
+        return str(j)
+    if isinstance(j, str):
+        return json.dumps(j, ensure_ascii=False)
+    if isinstance(j, list):
+        return "[" + ",".join(dump_json(x) for x in j) + "]"
+    return "{" + ",".join(json.dumps(k, ensure_ascii=False) + ":" + dump_json(v) for k, v in j.items()) + "}"
 
 
 def f64_bits(x):
@@ -69,14 +93,14 @@ def coq_mval(rec):
 def run(r):
     quick = r.tier == "quick"
     r.trusted += TRUSTED_COMMON + [
-        "serde / serde_json themselves (the derive semantics of untagged and tagged enums is transcribed by hand in UasmValue.v; number printing/parsing is not modelled: a float literal is taken to denote the nearest double)",
+        "serde / serde_json themselves (the derive semantics of untagged and tagged enums is transcribed by hand in UasmValue.v; number printing/parsing is not modelled: a float literal is taken to denote the nearest double, which serde_json with float_roundtrip guarantees; that the written literal is the shortest one is not modelled)",
         "searching a pattern in a text by code points equals searching it by UTF-8 bytes",
         "per-line parsers of from_uasm other than values (nodes, spans, bindings, index/code macro payloads) are covered by the search only",
         "uiua's own Node equality (hash based) and Value equality are used to compare re-read trees and run results",
     ]
     r.assumptions += [
         "C17_framing_roundtrip: every written line is newline-free, not blank, does not end in white space, the first line of a trimmed section does not start with white space (sections_wf) and every written line contains a character other than A-Z and blank (written_shape); both are checked on the real to_uasm output of every generated assembly by the tie",
-        "C17_value_json_roundtrip: values satisfy length(data) = product(shape) (wf_shape, C05), bytes are <= 255, a character list is not one of the reserved spellings NaN/W/empty/tomb/inf/-inf, complex parts are finite (plain_json); the theorem is about values without label / map keys (those are modelled at the top level and tied, not proved)",
+        "C17_value_json_roundtrip: only invariants of the term encoding - length(data) = product(shape) (wf_shape, C05), bytes <= 255, binary64 patterns < 2^64 (repr_ok); the theorem is about values without label / map keys (those are modelled at the top level and tied, not proved; C17_value_json_refuted_map is an open defect there)",
         "run behaviour of the re-read assembly is compared on finitely many run-time arguments per program (search), not proved for all arguments",
     ]
     if not r.harness(["c17"]):
@@ -99,6 +123,7 @@ def run(r):
         jobs.append(("c17_frame_%d" % si, text))
     results = coq_eval_many(jobs, timeout=900)
     mism, kinds, outcomes, unparseable, premises_checked = [], {}, {"ok": 0, "no-marker": 0, "other-error": 0, "panic": 0}, 0, 0
+    panics = []
     for si, (rc2, o) in enumerate(results):
         ch = cases[si * shard:(si + 1) * shard]
         sums = coq_lists(o)
@@ -125,6 +150,8 @@ def run(r):
                     mism.append((c, s, "missing-marker"))
             else:
                 outcomes["panic" if "panic" in oc else "other-error"] += 1
+                if "panic" in oc:
+                    panics.append(c)
                 if s[0] == 0:
                     mism.append((c, s, "model-says-missing-marker"))
                 else:
@@ -139,6 +166,17 @@ def run(r):
         c, s, why = mism[0]
         r.broken_obligation("tie:Uasm.v~from_uasm", "model and implementation disagree on where/whether a text splits (%s; %d of %d)" % (why, len(mism), len(cases)),
                             json.dumps({"kind": c["kind"], "src": c["src"], "impl": c["outcome"], "model_summary": s, "text": c["text"][:1500]}, ensure_ascii=False))
+
+    # from_uasm must return an error on a malformed text, never panic (/repo c00f690)
+    seen_p = set()
+    for c in panics:
+        msg = re.sub(r"\d+", "#", c["outcome"]["panic"])[:80]
+        key = "uasm-read-panics:%s:%s" % (c["kind"], msg)
+        if key in seen_p:
+            continue
+        seen_p.add(key)
+        r.violation(key, "from_uasm panics on a (mutated) .uasm text instead of returning an error: %s" % c["outcome"]["panic"][:200],
+                    {"kind": c["kind"], "program": c["src"], "text": c["text"], "panic": c["outcome"]["panic"]}, theorem="C17_framing_roundtrip")
 
     # ---------------------------------------------------------------- tie (a): values <-> JSON
     tie_values(r, quick)
@@ -198,9 +236,14 @@ def tie_values(r, quick):
             r.broken_obligation("tie-values-serialise", "serde_json::to_string failed on a value", json.dumps(c, ensure_ascii=False)[:1500])
             continue
         try:
-            j = coq_json(parse_json(c["json"]))
+            tree = parse_json(c["json"])
+            j = coq_json(tree)
         except (ValueError, RecursionError):
             skipped += 1
+            continue
+        if "val" in c and dump_json(tree) != c["json"]:
+            r.broken_obligation("tie-values-text", "a JSON text written by the implementation is not reproduced byte for byte from its parsed tree",
+                                json.dumps({"text": c["json"], "reproduced": dump_json(tree)}, ensure_ascii=False)[:1500])
             continue
         back = c["back"]
         if any(x.get("label") is not None and x.get("keys") is not None for x in (c.get("val", {}), back)):
@@ -215,7 +258,7 @@ def tie_values(r, quick):
         body = ";\n".join(t for _, t in ch)
         text = ("From Coq Require Import List NArith. Import ListNotations.\nFrom UV Require Import Base.Value Model.Uasm Model.UasmValue.\n"
                 "Definition cases : list (option mval * json * option mval) := [\n%s\n].\n"
-                "Eval vm_compute in (failing_from vcase_ok 0%%N cases).\n" % body)
+                "Eval vm_compute in (failing_from (vcase_ok true) 0%%N cases).\n" % body)
         jobs.append(("c17_val_%d" % si, text))
     results = coq_eval_many(jobs, timeout=900)
     mism = []
